@@ -9,6 +9,7 @@ The public table always touches a property group before a private table is
 initialised for it, and nothing is ever assigned or mutated: what happens
 otherwise is C10's business (S5, S6), not C20's.
 """
+from .. import subtable
 import math
 from decimal import Decimal
 
@@ -90,7 +91,7 @@ def env():
         getattr(pub.Fe, prop, None)
     # 2. only now the private table
     from periodictable import covalent_radius, crystal_structure, xsf, magnetic_ff
-    T = core.PeriodicTable("c20-private")
+    T = subtable.new("c20-private")
     mass.init(T)
     density.init(T)
     covalent_radius.init(T)
@@ -98,7 +99,17 @@ def env():
     xsf.init_spectral_lines(T)
     xsf.init(T)
     magnetic_ff.init(T)
-    _E["tables"] = {"public": pub, "private": T}
+    # 3. a private table that is an instance of a user subclass (pbt/subtable.py: iteration lists the chemical
+    #    elements only, undefined attributes are looked up in the public table); lookups by number are untouched
+    S = subtable.make("both", "c20-subclass")
+    mass.init(S)
+    density.init(S)
+    crystal_structure.init(S)
+    covalent_radius.init(S)
+    magnetic_ff.init(S)
+    xsf.init_spectral_lines(S)
+    xsf.init(S)
+    _E["tables"] = {"public": pub, "private": T, "subclass": S}
     return _E
 
 
@@ -249,7 +260,7 @@ def _env_private_first():
     pkg = R.pkg_dir()
     _E["oracle"] = {"cordero": R.cordero(pkg), "crystal": R.crystal(pkg), "spectral": R.spectral(pkg),
                     "magnetic": R.magnetic(pkg), "cm": R.waaskirf(pkg)}
-    T = core.PeriodicTable("c20-private")
+    T = subtable.new("c20-private")
     mass.init(T)
     density.init(T)
     magnetic_ff.init(T)
@@ -784,6 +795,7 @@ def task_large(ctx, part, parts):
 def tasks(tier):
     out = [("tables-public", task_tables, dict(which="public")),
            ("tables-private", task_tables, dict(which="private")),
+           ("tables-subclass", task_tables, dict(which="subclass")),
            ("tables-public-after-private-init", task_tables, dict(which="public", order="private-first")),
            ("tables-private-initialised-first", task_tables, dict(which="private", order="private-first")),
            ("cromer-mann", task_cm, {})]
